@@ -48,4 +48,30 @@ var DirectedScenarios = []Directed{
 		s.Settle()
 		return s.Finish()
 	}},
+	{Name: "indirectsent-after-sent-parent-disposed", Prop: "C02", Run: func(seed uint64) *HistResult {
+		// c is held directly and through a -> b -> c. Dropping b must also drop
+		// b's "sent" reference to c; otherwise c is later believed to be held
+		// through a sent parent when only a loading parent refers to it.
+		s := NewScript(HistCfg{Seed: seed, Pct: 0})
+		w := s.World()
+		w.AddModel("t.a", map[string]Val{"b": Ref("t.b")})
+		w.AddModel("t.b", map[string]Val{"c": Ref("t.c")})
+		w.AddModel("t.c", map[string]Val{"x": P(1)})
+		w.AddModel("t.d", map[string]Val{"c": Ref("t.c"), "x": Ref("t.x")})
+		w.AddModel("t.x", map[string]Val{"slow": P(true)})
+		c := s.Connect("1.2.3")
+		s.Req(c, "subscribe.t.c", nil)
+		s.Settle()
+		s.Req(c, "subscribe.t.a", nil)
+		s.Settle()
+		w.Change("t.a", map[string]*Val{"b": nil})
+		s.Settle()
+		s.Req(c, "subscribe.t.d", nil)
+		s.AnswerExcept("get.t.x")
+		s.Req(c, "unsubscribe.t.c", nil)
+		s.Quiesce()
+		s.Answer("get.t.x")
+		s.Settle()
+		return s.Finish()
+	}},
 }
